@@ -5,6 +5,51 @@ use zeroize::DefaultIsZeroes;
 pub mod coef;
 pub mod helper;
 
+/// Fixed-capacity byte buffer whose length, unlike the one of an [`ArrayVec`], is not limited to
+/// `u16::MAX`. An HSS signature with eight levels and 265 hash chains per level is longer.
+#[derive(Clone, Debug, Eq, PartialEq)]
+pub struct ByteBuffer<const N: usize> {
+    data: [u8; N],
+    len: usize,
+}
+
+impl<const N: usize> Default for ByteBuffer<N> {
+    #[inline]
+    fn default() -> Self {
+        Self {
+            data: [0u8; N],
+            len: 0,
+        }
+    }
+}
+
+impl<const N: usize> ByteBuffer<N> {
+    #[inline]
+    pub fn new() -> Self {
+        Self::default()
+    }
+
+    pub fn try_from_slice(bytes: &[u8]) -> Option<Self> {
+        if bytes.len() > N {
+            return None;
+        }
+        let mut result = Self::new();
+        result.extend_from_slice(bytes);
+        Some(result)
+    }
+
+    pub fn extend_from_slice(&mut self, bytes: &[u8]) {
+        let end = self.len + bytes.len();
+        self.data[self.len..end].copy_from_slice(bytes);
+        self.len = end;
+    }
+
+    #[inline]
+    pub fn as_slice(&self) -> &[u8] {
+        &self.data[..self.len]
+    }
+}
+
 #[derive(Clone, Copy, Debug, Eq, PartialEq)]
 pub struct ArrayVecZeroize<T, const N: usize>(pub ArrayVec<[T; N]>)
 where
